@@ -34,6 +34,7 @@ type retRec struct {
 	cond    string
 	st      *State
 	results []Val
+	pos     token.Pos // position of the return statement (orders the returns for `set@K`)
 }
 
 type Frame struct {
@@ -606,6 +607,14 @@ func (fr *Frame) localEnv(st *State) *Env {
 func (fr *Frame) loopHead(li *loopInfo, st *State, cond string) *State {
 	vc := fr.vc
 	top := fr.top()
+	if li.spec != nil && len(li.spec.Inits) > 0 {
+		// ghost initialisation of the loop (`loop K init t := v`): executed once on entry, on the entering state
+		for _, gu := range li.spec.Inits {
+			if err := fr.ghostAssign(st, fr.localEnv(st), gu); err != nil {
+				vc.prog.specErrors = append(vc.prog.specErrors, fmt.Sprintf("%s: loop %d ghost init %s: %v", fr.top().oblFn, li.ordinal, gu.Target.String(), err))
+			}
+		}
+	}
 	li.entrySt = st.Clone()
 	hpos := li.header.Instrs[0].Pos()
 	if hpos == token.NoPos {
@@ -1040,7 +1049,7 @@ func (fr *Frame) instr(st *State, ins ssa.Instruction) {
 		for _, r := range x.Results {
 			rs = append(rs, fr.val(r))
 		}
-		fr.returns = append(fr.returns, retRec{cond: cond, st: st.Clone(), results: rs})
+		fr.returns = append(fr.returns, retRec{cond: cond, st: st.Clone(), results: rs, pos: x.Pos()})
 	case *ssa.Panic:
 		// explicit panic: a safety obligation under nopanic; otherwise the path simply ends
 		ps := st.Clone()
